@@ -30,7 +30,11 @@ CLAIMS = {
  'C03': bounded('Run-time contract "merge_notebooks returns normally" over notebook triples x strategy tables x text-merge helpers (git / diff3 / built-in, selected via PATH).', 'DESIGN.md 5/C03'),
  'C04': bounded('Run-time contract "merged notebook validates against nbformat\'s schema file for its declared minor" (jsonschema directly, not nbformat.validate) over the C03 space incl. mixed minors.', 'DESIGN.md 5/C04'),
  'C05': bounded('Run-time contracts for identity / one-sided adoption / agreement (notebooks x strategy tables, generic JSON) and role-swap symmetry (side-naming strategies swapped with the roles; same-position double inserts excluded).', 'DESIGN.md 5/C05'),
- 'C06': bounded('By-construction expectation: per-cell ownership, actions and non-adjacent insertions; expected notebook built without nbdime; also generic JSON dict/list cases.', 'DESIGN.md 5/C06'),
+ 'C06': dict(category='other', design_ref='DESIGN.md 5/C06, A4', note=TRUST, technique=TECH_MIX,
+   text='Mixed: one function of the chunk machinery is PROVED for all inputs (nbdime.merging.chunks.split_diffs_on_boundaries: splitting removeranges at the chunk boundaries preserves '
+        'the run of the diff, hence its result; index safety, the sanity assert, unreachability of the final raise, termination), together with the builder contracts it calls; the property '
+        'itself (disjoint changes merge cleanly into both sets of changes) is decided by a BOUNDED by-construction oracle: per-cell ownership, actions and non-adjacent insertions, expected '
+        'notebook built without nbdime, generic JSON dict/list cases, and real nbmerge / git-nbmergedriver processes (also under a non-UTF-8 locale).'),
  'C07': bounded('Line-set survival/provenance contracts and the same-line-rewrite flagging contract under the default strategy for each text-merge helper.', 'DESIGN.md 5/C07'),
  'C09': dict(category='other', design_ref='DESIGN.md 5/C09, A4', note='The structural part is syntactic (recognised code shapes only; an unrecognised shape makes no statement) and rests on the stated semantics of Python list/tuple comparison and sorted(); everything else is bounded.',
    technique='structural obligations on the sort key and the sorting call (discharged on the current source) + bounded run-time contracts for ordering, schema, JSON and losslessness',
